@@ -212,6 +212,30 @@ CLAIMED = {
             "training multiset (fixed point, +-2 units), and that the precomputed-kernel speed-up equals the run "
             "without it.",
             "DESIGN.md 5 (C19)", TRUST),
+    "C12": ("TLA+ module FitModel (abstract model = bag of labeled (sample, annotator, label, weight) entries; "
+            "FitIgnoresUnlabeled; deviation FitOnAll) model-checked by TLC; TLC-enumerated pairs of data sets with equal "
+            "labeled part fitted on the real estimators and validated by FitModelTrace",
+            "TLC checks that the abstract fitted model depends on the labeled part only for all data sets over 2 ids x "
+            "labels x weights and that fitting on all rows (the code-shaped deviation) violates it; TLC enumerates pairs "
+            "(D, E) with equal labeled part (unlabeled samples added / dropped / permuted, their weights changed, the "
+            "labeled subset alone, two-annotator variants) and each pair is fitted on fresh objects of SklearnClassifier "
+            "/ SklearnRegressor / SklearnNormalRegressor around several estimators, ParzenWindowClassifier with fixed "
+            "bandwidth, NICKernelRegressor, NadarayaWatsonRegressor and AnnotatorLogisticRegression; TLC recomputes the "
+            "labeled bags and requires band-encoded predictions on probe points to agree (a fit that raises is an "
+            "outcome like any other).",
+            "DESIGN.md 5 (C12)", TRUST),
+    "C13": ("TLA+ module FitModel (params / caller-owned dicts / model / window; ParamsFrame, HistoryFree, Window; "
+            "deviations WriteBack, StaleWindow) model-checked by TLC; TLC-generated call histories replayed on every "
+            "classifier, regressor, budget manager and stream strategy and validated by FitModelTrace",
+            "TLC checks on the model that only SetParams changes what get_params reports, that a fit after any history "
+            "equals the fit of a fresh clone and that the sliding-window model is the fit on the last window_size "
+            "samples, and that the code-shaped deviations violate these; TLC histories (depth 3-4 over fit, "
+            "partial_fit, predict, query, update, set_params on three data sets) are replayed on 31 estimator "
+            "configurations and 53 budget-manager / stream-strategy configurations incl. symbolic defaults and "
+            "caller-owned dicts; after every call TLC compares the digest ids of every get_params(deep=True) entry and "
+            "of every caller-owned object, and after every training call the band-encoded predictions with those of a "
+            "clone of the unfitted prototype that received exactly the calls the specification prescribes.",
+            "DESIGN.md 5 (C13)", TRUST),
 }
 
 NOT_YET = {}
